@@ -72,6 +72,8 @@ Why(c, o) ==
 \* population front end: one row per tree, in order, each tree's values followed by zeros up to the longest row
 \* (feature: path_length, whose order within a row the property does not fix: compared as bags; and node_count, one value per tree)
 BagOfSeq(q) == [v \in SetOfSeq(q) |-> Cardinality({ k \in DOMAIN q : q[k] = v })]
+RA == << <<1, 2>>, <<9, 2>> >>                     \* rho^2 = num / den: never a lattice distance, so no count depends on rounding
+RB == << <<51, 2>>, <<1, 2>>, <<9, 2>> >>
 WhyPop(c, o) ==
     LET ntips(k) == Cardinality(Tips(c.trees[k].P))
         width == LET S == { ntips(k) : k \in DOMAIN c.trees } IN CHOOSE m \in S : \A x \in S : x <= m
@@ -84,6 +86,11 @@ WhyPop(c, o) ==
     ELSE IF \E k \in DOMAIN c.trees : \E j \in ntips(k) + 1 .. width : o.rows[k][j] # 0 THEN "population-zero-padding"
     ELSE IF \E k \in DOMAIN c.trees : \E j \in 1 .. ntips(k) : ~CloseI(o.rows[k][j], near(o.rows[k][j])) THEN "population-values"
     ELSE IF \E k \in DOMAIN c.trees : BagOfSeq([j \in 1 .. ntips(k) |-> near(o.rows[k][j])]) # BagOfSeq(expd(k)) THEN "population-values"
+    ELSE IF o.rows2 # o.rows THEN "population-values-asked-again"
+    \* the same extractor object asked for Sholl counts at radii RA, then RB (another number of radii, another order), then RA again
+    ELSE IF o.sholl = 1 /\ (\E k \in DOMAIN c.trees : o.shA[k] # [j \in DOMAIN RA |-> ShollCount(c.trees[k].P, c.trees[k].pos, RA[j][1], RA[j][2])]) THEN "population-sholl"
+    ELSE IF o.sholl = 1 /\ (\E k \in DOMAIN c.trees : o.shB[k] # [j \in DOMAIN RB |-> ShollCount(c.trees[k].P, c.trees[k].pos, RB[j][1], RB[j][2])]) THEN "population-sholl-second-radii"
+    ELSE IF o.sholl = 1 /\ o.shA2 # o.shA THEN "population-sholl-first-radii-again"
     ELSE ""
 VARIABLES l, bad
 Init == l = 0 /\ bad = <<>>
